@@ -92,3 +92,62 @@ Print Assumptions C16_generated_notdef_height_accepted.
 Example C16_plain_difference_rejected : vmtx_accepts (0 - 100) = false.
 Proof. exact plain_difference_rejected. Qed.
 Print Assumptions C16_plain_difference_rejected.
+
+(* ---- the fallback functions as TRANSLATED from /repo's fontInfoData.py on this run (Generated/InfoFallbacks.v) ---- *)
+From U2F Require Import Generated.InfoFallbacks Info.FallbackTied.
+
+(* the translated code is the hand model that the correspondence check runs against the real functions *)
+Theorem C16_code_fallbacks_are_the_model : tr_getattr_shape_ok = true /\ forall i, tr_table_metrics i = table_metrics i.
+Proof. exact code_is_the_model. Qed.
+Print Assumptions C16_code_fallbacks_are_the_model.
+
+(* "every absent one is filled by the documented fallback derived from unitsPerEm": the code, as it reads now, computes the
+   documented value of all thirteen vertical-metric attributes, for every info *)
+Theorem C16_code_computes_the_documented_fallbacks : forall i,
+  tr_unitsPerEm i = doc_upm i /\ tr_ascender i = doc_ascender i /\ tr_descender i = doc_descender i /\
+  tr_capHeight i = doc_capHeight i /\ tr_xHeight i = doc_xHeight i /\
+  tr_openTypeOS2TypoAscender i = doc_typoAsc i /\ tr_openTypeOS2TypoDescender i = doc_typoDesc i /\
+  tr_openTypeOS2TypoLineGap i = doc_typoGap i /\
+  tr_openTypeHheaAscender i = doc_hheaAsc i /\ tr_openTypeHheaDescender i = doc_hheaDesc i /\
+  tr_openTypeHheaLineGap i = doc_hheaGap i /\
+  tr_openTypeOS2WinAscent i = doc_winAsc i /\ tr_openTypeOS2WinDescent i = doc_winDesc i.
+Proof. exact code_is_the_documented_fallback. Qed.
+Print Assumptions C16_code_computes_the_documented_fallbacks.
+
+Theorem C16_code_explicit_wins : forall i,
+  (forall v, i_upm i = Some v -> tr_unitsPerEm i = v) /\
+  (forall v, i_ascender i = Some v -> tr_ascender i = v) /\
+  (forall v, i_descender i = Some v -> tr_descender i = v) /\
+  (forall v, i_capHeight i = Some v -> tr_capHeight i = v) /\
+  (forall v, i_xHeight i = Some v -> tr_xHeight i = v) /\
+  (forall v, i_typoAsc i = Some v -> tr_openTypeOS2TypoAscender i = v) /\
+  (forall v, i_typoDesc i = Some v -> tr_openTypeOS2TypoDescender i = v) /\
+  (forall v, i_typoGap i = Some v -> tr_openTypeOS2TypoLineGap i = v) /\
+  (forall v, i_winAsc i = Some v -> tr_openTypeOS2WinAscent i = v) /\
+  (forall v, i_winDesc i = Some v -> tr_openTypeOS2WinDescent i = v) /\
+  (forall v, i_hheaAsc i = Some v -> tr_openTypeHheaAscender i = v) /\
+  (forall v, i_hheaDesc i = Some v -> tr_openTypeHheaDescender i = v) /\
+  (forall v, i_hheaGap i = Some v -> tr_openTypeHheaLineGap i = v).
+Proof. exact code_explicit_wins. Qed.
+Print Assumptions C16_code_explicit_wins.
+
+Theorem C16_code_derived_values_fit : forall i,
+  (i_winAsc i = None -> (0 <= otRound (tr_openTypeOS2WinAscent i))%Z) /\
+  (i_winDesc i = None -> (0 <= otRound (tr_openTypeOS2WinDescent i))%Z) /\
+  (i_typoGap i = None -> (0 <= otRound (tr_openTypeOS2TypoLineGap i))%Z).
+Proof. exact code_derived_values_fit. Qed.
+Print Assumptions C16_code_derived_values_fit.
+
+Theorem C16_code_default_metrics_consistent : forall i,
+  i_typoAsc i = None -> i_hheaAsc i = None -> i_winAsc i = None -> i_typoGap i = None ->
+  tr_openTypeHheaAscender i = (tr_openTypeOS2TypoAscender i + tr_openTypeOS2TypoLineGap i)%Qc /\
+  (this (tr_openTypeOS2TypoAscender i + tr_openTypeOS2TypoLineGap i)%Qc <= this (tr_openTypeOS2WinAscent i))%Q /\
+  (0 <= this (tr_openTypeOS2TypoLineGap i))%Q.
+Proof. exact code_default_metrics_consistent. Qed.
+Print Assumptions C16_code_default_metrics_consistent.
+
+Example C16_code_defaults_of_empty_info :
+  tr_table_metrics (mkInfo None None None None None None None None None None None None None)
+  = mkVM 1000 500 700 800 (-200) 200 1000 200 1000 (-200) 0.
+Proof. exact code_defaults_of_empty_info. Qed.
+Print Assumptions C16_code_defaults_of_empty_info.
